@@ -1,6 +1,8 @@
 import Emerge.Driver.Scan
 import Emerge.Driver.Parse
 import Emerge.Driver.Spec
+import Emerge.Driver.Regex
+import Emerge.Driver.ParseEval
 /-
   Model driver: one case per input line, one result per output line (same protocol as the Go harness).
 -/
@@ -19,6 +21,13 @@ def dispatch (cmd : String) (fields : List String) : String :=
   | "goto" => cmdGoto fields
   | "spec" => cmdSpec fields
   | "specfixed" => cmdSpecFixed fields
+  | "lreval" => cmdLrEval fields
+  | "lrast" => cmdLrAst fields
+  | "repat" => cmdRePat fields
+  | "renfa" => cmdReNFA fields
+  | "respec" => cmdReSpec fields
+  | "renfafixed" => cmdReNFAFixed fields
+  | "reast" => cmdReAST fields
   | _ => "UNKNOWN-COMMAND"
 
 partial def loop (cmd : String) (h : IO.FS.Stream) (out : IO.FS.Stream) : IO Unit := do
